@@ -54,10 +54,10 @@ static std::string showP(const std::unique_ptr<Parameter>& p) {
   return s + (ic ? showIC(*ic) : std::string("other"));
 }
 
-// the constraint argument of a parameter op: `-` (none) or an interval register; the parameter
-// receives its own copy of the interval object, so that in-place updates of a register
-// (ic.interas / ic.setlo / ic.sethi / ic.parse) never reach an attached constraint
-// (that route is outside the property and outside the model)
+// the constraint argument of a by-value parameter op (p.new, p.new3, p.setc): `-` (none) or an interval
+// register; the parameter receives its own copy of the interval object, so that in-place updates of a
+// register (ic.interas / ic.setlo / ic.sethi / ic.parse) do not reach the attached constraint.
+// The `shared` ops (p.news, p.setcs: sarg below) attach the register's object itself.
 static std::shared_ptr<ConstraintInterface> carg(const std::string& s) {
   if (s == "-") return nullptr;
   const IC& c = ics.at(toU(s));
@@ -174,8 +174,8 @@ static std::string op(const Toks& t) {
     // number of complete lines the capturing message handler received since the last call
     std::string txt = capBuf.str(); capBuf.str("");
     size_t n = 0; for (char ch : txt) if (ch == '\n') n++;
-    // every message names the parameter and quotes the description of its constraint
-    size_t m = 0, pos = 0; while ((pos = txt.find("Constraint match at parameter x, badValue = ", pos)) != std::string::npos) { m++; pos++; }
+    // every line is a report "Constraint match at parameter <name>, badValue = <v> <description>"
+    size_t m = 0, pos = 0; while ((pos = txt.find("Constraint match at parameter ", pos)) != std::string::npos) { m++; pos++; }
     return std::to_string(n) + " " + std::to_string(m);
   }
   if (o.compare(0, 2, "p.") == 0) {
